@@ -402,6 +402,7 @@ func (g *gen) newID() int { g.nextID++; return g.nextID }
 
 // dbProfiles lists the profiles of the whole-DB engine.
 var dbProfiles = map[string]bool{"latest": true, "crash": true, "crash-sync": true, "flushdur": true,
+	"manifest": true, "fmv": true, "durable": true, "crashvalsep": true,
 	"iterpos": true, "snap": true, "iterview": true, "ibatch": true, "rangekey": true, "masking": true,
 	"commit": true, "concurrent": true,
 	"levels": true, "close": true, "ingest": true, "efos": true, "checkpoint": true, "scaninternal": true, "maint": true, "valsep": true}
@@ -444,11 +445,13 @@ func mixProfile(profile string, g *gen) (mixW, bool) {
 // forkPolicy returns how crash forks are taken for a profile and tier.
 func forkPolicy(profile, tier string) (mode string, n int) {
 	switch profile {
-	case "crash", "crash-sync", "flushdur":
+	case "crash", "crash-sync", "flushdur", "fmv", "durable", "crashvalsep":
 		if tier == "thorough" {
 			return "all", 0
 		}
 		return "sample", 16
+	case "manifest":
+		return "sample", 40
 	}
 	return "", 0
 }
@@ -480,6 +483,23 @@ func (g *gen) genCrash(nops int, profile string) {
 	for i := 0; i < nops; i++ {
 		x := g.r.IntN(100)
 		switch {
+		case profile == "fmv" && x < 12:
+			g.add(DBOp{K: "ratchet", N: g.r.IntN(64)})
+		case profile == "durable" && x < 14:
+			g.add(DBOp{K: "durscan"})
+		case profile == "manifest" && x < 30:
+			switch g.r.IntN(4) {
+			case 0:
+				g.add(DBOp{K: "flush"})
+			case 1:
+				a, b := g.span()
+				g.add(DBOp{K: "compact", Key: a, End: b})
+			case 2:
+				g.add(g.ingestOp(rangeKeys, false))
+			default:
+				a, b := g.prefixSpan()
+				g.add(DBOp{K: "excise", Key: a, End: b})
+			}
 		case x < 62:
 			o := g.writeOp(rangeKeys)
 			if profile == "crash-sync" {
@@ -577,9 +597,20 @@ func (e *dbEngine) Generate(profile string, seed uint64, tier string) (*Plan, er
 	switch profile {
 	case "latest":
 		g.genLatest(nops)
-	case "crash", "crash-sync", "flushdur":
+	case "crash", "crash-sync", "flushdur", "manifest", "fmv", "durable", "crashvalsep":
 		if profile == "flushdur" && g.r.IntN(2) == 0 {
 			g.cfg.DisableWAL = true
+		}
+		if profile == "manifest" {
+			g.cfg.MaxManifestFileSize = pick(&g.r, []int64{1, 1, 128})
+		}
+		if profile == "fmv" {
+			g.cfg.FMV = fmvMin + g.r.IntN(fmvNewest-fmvMin)
+		}
+		if profile == "crashvalsep" {
+			g.cfg.ValueSep = true
+			g.cfg.ValueSepMin = pick(&g.r, []int{1, 8, 32, 100})
+			g.cfg.FMV = 0
 		}
 		n := 15 + g.r.IntN(60)
 		if tier == "thorough" {
